@@ -32,6 +32,19 @@ PRE_ASM = ("From Coq Require Import ZArith NArith List Bool PrimFloat.\nImport L
            "  leq (fun x y => s_eqb (fst x) (fst y) && leq feqa (snd x) (snd y)) (assemble ps) cols.\n")
 
 
+PRE_PLOT = PRE_ASM + (
+           "Definition chkp (c : list (list (str * float)) * list str * list (str * list float)) : bool := let '(ps, disp, cur) := c in\n"
+           "  match plot_curves (seq 0 (length ps)) (fun i => nth i ps []) disp with\n"
+           "  | Some got => leq (fun x y => s_eqb (fst x) (fst y) && leq feqa (snd x) (snd y)) got cur | None => false end.\n")
+
+
+def plot_term(points, nuclides, ydata):
+    ps = "[" + "; ".join("[" + "; ".join(f"({Q.cstr(k)}, {Q.fhex(float.fromhex(v))})" for k, v in p) + "]" for p in points) + "]"
+    disp = "[" + "; ".join(Q.cstr(k) for k in nuclides) + "]"
+    cs = "[" + "; ".join(f"({Q.cstr(k)}, [" + "; ".join(Q.fhex(float.fromhex(v)) for v in row) + "])" for k, row in zip(nuclides, ydata)) + "]"
+    return f"({ps}, {disp}, {cs})"
+
+
 def asm_term(points, cols, data):
     ps = "[" + "; ".join("[" + "; ".join(f"({Q.cstr(k)}, {Q.fhex(float.fromhex(v))})" for k, v in p) + "]" for p in points) + "]"
     cs = "[" + "; ".join(f"({Q.cstr(k)}, [" + "; ".join(Q.fhex(float.fromhex(v)) for v in data[k]) + "])" for k in cols) + "]"
@@ -87,7 +100,7 @@ def series_stream(rng, thorough, streams, viol, samples):
                       "scale": "linear", "tmax": float(rng.choice([2.0, 5.0, 40.0])).hex(), "npoints": 3, "explicit": None, "plot": True, "display": "all",
                       "order": "dataset", "yscale": "log", "ymin": float(0.0).hex(), "ymax": None, "xmin": float(0.0).hex()})
     impl = U.run_impl("impl_series.py", cases, timeout=6000)
-    bad, lin_terms, asm_terms, asm_cases = [], [], [], []
+    bad, lin_terms, asm_terms, asm_cases, plot_terms, plot_cases = [], [], [], [], [], []
     for c, r in zip(cases, impl):
         if "err" in r:
             if "ZeroDivision" in r["err"] or "divide" in r["err"]:
@@ -129,6 +142,8 @@ def series_stream(rng, thorough, streams, viol, samples):
                         bad.append((c, f"log grid point {i} is {t!r}, expected 10**{y!r} = {want!r}")); break
         if "plot" in r:
             p = r["plot"]
+            if sum(len(q) for q in p["points"]) <= 400 and len(p["ydata"]) == len(p["nuclides"]):
+                plot_terms.append(plot_term(p["points"], p["nuclides"], p["ydata"])); plot_cases.append(c)
             if p["ylabel"] != ylabel(c["kind"]) or p["xunits"] != c["tunit"]:
                 bad.append((c, f"plot labels {p['ylabel']!r} / {p['xunits']!r} do not name the requested unit"))
             want_n = p["dataset_order"] if c["order"] == "dataset" else p["all_nuclides"]
@@ -164,14 +179,15 @@ def series_stream(rng, thorough, streams, viol, samples):
                 bad.append((c, "plot time grid does not run from xmin to xmax"))
     badl, errs = Q.run_cases("linspace", PRE, "float * float * nat * list float", lin_terms, "chk", shard=100)
     bada, errsa = Q.run_cases("assemble", PRE_ASM, "list (list (str * float)) * list (str * list float)", asm_terms, "chka", shard=40)
-    errs = errs + errsa
+    badp, errsp = Q.run_cases("plotcurves", PRE_PLOT, "list (list (str * float)) * list str * list (str * list float)", plot_terms, "chkp", shard=40)
+    errs = errs + errsa + errsp
     kinds_seen = sorted({c["kind"] for c in cases})
     streams["series"] = {"cases": len(cases), "kinds": len(kinds_seen), "linear_grids_bitexact_in_coq": len(lin_terms), "grid_model_disagrees": len(badl),
-                         "impl_property_failures": len(bad), "assembly_model_in_coq": len(asm_terms), "assembly_model_disagrees": len(bada), "coq_errors": len(errs), "hp": sum(1 for c in cases if c["cls"] == "InventoryHP"),
+                         "impl_property_failures": len(bad), "assembly_model_in_coq": len(asm_terms), "assembly_model_disagrees": len(bada), "plot_curves_model_in_coq": len(plot_terms), "plot_curves_model_disagrees": len(badp), "coq_errors": len(errs), "hp": sum(1 for c in cases if c["cls"] == "InventoryHP"),
                          "what": "decay_time_series / _pandas / plot (captured decay_graph arguments) for the 47 read-out kinds x {linear, log}: values bit-identical "
                                  "to separate decays at each time, columns = decayed inventory, grid (linear bit-exact vs the PrimFloat model of linspace; log: exponents on that grid, power within 2 ulp), "
                                  "explicit times verbatim, labels, curve order, y-limits; the lines actually drawn on the axes (labels, x, y bit-identical); "
-                                 "the columns also equal the Coq model of the defaultdict assembly loop (Model/SeriesAsm.v, theorems Props/C13b.v) evaluated on the separate decays' read-outs; "
+                                 "the columns also equal the Coq model of the defaultdict assembly loop (Model/SeriesAsm.v, theorems Props/C13b.v) evaluated on the separate decays' read-outs, and the curves handed to decay_graph equal the model plot_curves; "
                                  "a third of the requests on objects that already produced a series/plot and were then changed in place"}
     seen = set()
     for c, why in bad:
@@ -191,6 +207,11 @@ def series_stream(rng, thorough, streams, viol, samples):
             viol.append({"name": f"assemble-model-{i}", "found_input": True, "key": f"assemble-model:{asm_cases[i]['kind']}",
                          "payload": {"fails": "the columns returned by decay_time_series differ from the proved assembly (Model/SeriesAsm.v assemble) of the separate decays' read-outs",
                                      "input": asm_cases[i], "entry": "decay_time_series"}})
+    for i in badp[:2]:
+        if not any(plot_cases[i] is c for c, _ in bad):
+            viol.append({"name": f"plot-curves-model-{i}", "found_input": True, "key": f"plot-curves-model:{plot_cases[i]['kind']}",
+                         "payload": {"fails": "the curves handed to decay_graph differ from the proved model (Model/SeriesAsm.v plot_curves) of the separate decays' read-outs",
+                                     "input": plot_cases[i], "entry": "plot"}})
     if errs:
         viol.append({"name": "series-coq", "found_input": False, "key": "series-coq", "payload": {"broken": "Coq evaluation failed", "errors": errs[:2]}})
     samples.append({"case": {k: v for k, v in cases[0].items() if k != "contents"}, "times": impl[0].get("times")})
